@@ -21,7 +21,12 @@ RULE = ("architectures nv,nh,na in 1..3 (quick: covering subset incl. nh != nv, 
         "(phase-net U of magnitude pi..9, so 1 + exp(z_k) visits the left half-plane); the basis is enumerated "
         "independently (itertools.product); all pairs (sigma, sigma') of basis states; call forms rho(space,space), "
         "rho(space) with default vp, rho(v,vp,expand=False), 1-D single element, rho(v) 1-D, rho(v,expand=False); "
-        "probability(space), probability(space, Z); a case is (regime, nv, nh, na, parameter draw); "
+        "matrix form with v != vp (two row orders, rectangular k x m, off-diagonal block); probability(space), "
+        "probability(space, Z); SAME-OBJECT HISTORIES: one DensityMatrix and one set of batch tensor objects, parameters of "
+        "both networks rewritten by .data =, .data.copy_, load_state_dict, vector_to_parameters and everything re-evaluated; "
+        "a batch tensor permuted in place (copy_ / .data.copy_) between two evaluations; batches of 65537..131075 rows "
+        "gathered against the small verified results; three fixed history cases run first; "
+        "a case is (regime, nv, nh, na, parameter draw, history step); "
         "non-trivial := all biases non-zero, amplitude aux bias != 0 and U_mu != 0")
 ASSUMPTIONS = ["torch exp/log/sqrt/atan2/softplus/logsumexp/matmul implement the real functions up to rounding",
                "parameter draws avoid the measure-zero singular points 1 + exp(z_k) = 0 of the code's log/atan2 "
@@ -66,12 +71,31 @@ def cnp(t):
 
 
 # ------------------------------------------------------------------ one case
-def evaluate(ctx, s, am, ph, case, nontriv, desc):
+def make_tensors(nv, na):
+    """The batch tensors of one case.  They are created ONCE per object history and re-used (same tensor objects) for
+    every re-evaluation after the parameters were rewritten, so that a result cached per batch object shows up."""
+    import torch
+    sp = gen.all_states(nv)                             # independent enumeration (itertools.product), row i = binary of i
+    space = torch.tensor(sp, dtype=torch.double)
+    N = len(sp)
+    ii, jj = np.divmod(np.arange(N * N), N)
+    A = np.array(list(itertools.product([0.0, 1.0], repeat=na)))
+    VVn, AAn = np.repeat(sp, len(A), axis=0), np.tile(A, (N, 1))
+    return {"sp": sp, "space": space, "ii": ii, "jj": jj, "V": space[ii], "VP": space[jj], "VVn": VVn, "AAn": AAn,
+            "VV": torch.tensor(VVn, dtype=torch.double), "AA": torch.tensor(AAn, dtype=torch.double),
+            "row1": [space[i] for i in range(N)], "mutable": space.clone()}
+
+
+def evaluate(ctx, s, am, ph, case, nontriv, desc, T=None, big=False):
+    """Full evaluation of one parameter setting of the object s.  All auxiliary discrete choices (probe pairs, random Z,
+    permutations, large-batch indices) come from a generator seeded with case['aux_seed'], so a replay repeats them."""
     import torch
     m = ctx.get_model()
     nv, na = len(am[2]), len(am[4])
-    sp = gen.all_states(nv)                             # independent enumeration (itertools.product), row i = binary of i
-    space = torch.tensor(sp, dtype=torch.double)
+    if T is None:
+        T = make_tensors(nv, na)
+    arng = np.random.default_rng(int(case.setdefault("aux_seed", int(ctx.rng.integers(0, 2 ** 31 - 1)))))
+    sp, space = T["sp"], T["space"]
     N = len(sp)
     logp, phi, A = purified_state(am, ph, sp)
     Uam = am[1]
@@ -90,8 +114,8 @@ def evaluate(ctx, s, am, ph, case, nontriv, desc):
         ctx.count("bias_magnitude_above_10")
     ctx.count("shape:%dx%dx%d" % (nv, len(am[3]), na))
 
-    ii, jj = np.divmod(np.arange(N * N), N)
-    V, VP = space[ii], space[jj]                       # all pairs, row-major like the matrix
+    ii, jj = T["ii"], T["jj"]
+    V, VP = T["V"], T["VP"]                            # all pairs, row-major like the matrix
     rb_am, rb_ph = s.rbm_am, s.rbm_ph
     ok, out = ctx.call("density-matrix evaluation", case, lambda: (
         s.rho(space, space), s.rho(V, VP, expand=False), s.rho(space, expand=False),
@@ -142,7 +166,7 @@ def evaluate(ctx, s, am, ph, case, nontriv, desc):
     ctx.agree("normalization(space)", Z, m_Z, case, atol=0)
     ctx.agree("rho(v, expand=False) diagonal shortcut", Rd.numpy().T, m_diag, case, atol=0)
     Zf = float(Z)
-    Zr = float(np.exp(ctx.rng.uniform(np.log(0.05), np.log(50.0))))
+    Zr = float(np.exp(arng.uniform(np.log(0.05), np.log(50.0))))
     pzs = None
     okz, pzs = ctx.call("probability(space, Z)", case, lambda: (
         s.probability(space, Zf), s.probability(space, Z=Zr), s.probability(space[N - 1], Zr)))
@@ -151,9 +175,8 @@ def evaluate(ctx, s, am, ph, case, nontriv, desc):
         ctx.agree("probability(space, Z=normalization)", pz, m.call("dm_probability", *am, sp, Zf), case, atol=0)
         ctx.agree("probability(space, Z=random)", pr, m.call("dm_probability", *am, sp, Zr), case, atol=0)
     # effective energies of both networks, auxiliary units traced / given (all (sigma, a) combinations)
-    VVn, AAn = np.repeat(sp, len(A), axis=0), np.tile(A, (N, 1))
-    VV, AA = torch.tensor(VVn, dtype=torch.double), torch.tensor(AAn, dtype=torch.double)
-    E_joint = {}
+    VVn, AAn, VV, AA = T["VVn"], T["AAn"], T["VV"], T["AA"]
+    E_joint, E_small = {}, {}
     for name, rb, pr in (("rbm_am", rb_am, am), ("rbm_ph", rb_ph, ph)):
         ok, ee = ctx.call(name + ".effective_energy", case, lambda: (rb.effective_energy(space), rb.effective_energy(VV, AA)))
         if ok:
@@ -162,15 +185,17 @@ def evaluate(ctx, s, am, ph, case, nontriv, desc):
             ctx.agree(name + ".effective_energy(v, a)", ee[1], mEa, case)
             if list(ee[1].shape) == [N * len(A)]:
                 E_joint[name] = ee[1].numpy().reshape(N, len(A))
+            if list(ee[0].shape) == [N]:
+                E_small[name] = ee[0].numpy()
 
     # 1-D single-element call forms
     if N <= 4:
         pairs = [(i, j) for i in range(N) for j in range(N)]
     else:
-        pairs = [(0, N - 1), (N - 1, 0), (1, 1), (N // 2, 1)] + [tuple(int(t) for t in ctx.rng.integers(0, N, size=2)) for _ in range(8)]
+        pairs = [(0, N - 1), (N - 1, 0), (1, 1), (N // 2, 1)] + [tuple(int(t) for t in arng.integers(0, N, size=2)) for _ in range(8)]
     singles = {}
     for (i, j) in pairs:
-        v1, vp1 = space[i], space[j]
+        v1, vp1 = T["row1"][i], T["row1"][j]
         ok, o1 = ctx.call("1-D call forms", case, lambda: (
             s.rho(v1, vp1), s.rho(v1, vp1, expand=False), s.pi(v1, vp1),
             rb_am.gamma(v1, vp1, eta=+1), rb_ph.gamma(v1, vp1, eta=-1)))
@@ -192,8 +217,8 @@ def evaluate(ctx, s, am, ph, case, nontriv, desc):
     ok, d1 = ctx.call("rho(v, expand=False) 1-D", case, lambda: s.rho(space[N - 1], expand=False))
     if ok:
         ctx.agree("rho(v, expand=False) 1-D diagonal shortcut", d1.numpy().ravel(), m_diag[N - 1], case, atol=0)
-    i0 = int(ctx.rng.integers(0, N))
-    ok, d1def = ctx.call("rho(v) 1-D, default vp", case, lambda: s.rho(space[i0]))
+    i0 = int(arng.integers(0, N))
+    ok, d1def = ctx.call("rho(v) 1-D, default vp", case, lambda: s.rho(T["row1"][i0]))
     d1def_ok = ok and list(d1def.shape) == [2]
     if ok:
         ctx.require("rho(v) 1-D with default vp returns a single complex element", d1def_ok, case, list(d1def.shape))
@@ -261,7 +286,159 @@ def evaluate(ctx, s, am, ph, case, nontriv, desc):
         ctx.require("single element rho(v,vp) == entry [i][j] of rho(space,space)",
                     abs(z1 - Rc[i, j]) <= tolm[i, j] and abs(z1f - Rc[i, j]) <= tolm[i, j], case,
                     {"i": i, "j": j, "single": str(z1), "single expand=False": str(z1f), "matrix": str(Rc[i, j])})
+    res = {"s": s, "T": T, "N": N, "Rc": Rc, "mRc": mRc, "amp": amp, "sc": sc, "tolm": tolm, "prob": prob_n, "Z": Zf,
+           "E_small": E_small, "E_joint": E_joint, "A": A}
+    matrix_forms(ctx, res, case, arng)
+    batch_mutated_in_place(ctx, res, case, arng)
+    if big:
+        large_batches(ctx, res, case, arng)
+    # last touch: the shared tensor objects are evaluated once more, (i) a repeated call must reproduce the verified values
+    # and (ii) whatever a single-entry cache holds when the parameters are rewritten next is keyed on these objects
+    ok, again = ctx.call("repeated evaluation", case, lambda: (
+        s.rho(space, space), s.rho(V, VP, expand=False), s.rho(space, expand=False), s.rho(space), s.probability(space),
+        s.normalization(space), s.pi(space, space), rb_am.gamma(space, space, eta=+1), rb_ph.gamma(space, space, eta=-1),
+        rb_am.effective_energy(space), rb_ph.effective_energy(space), rb_am.effective_energy(VV, AA), rb_ph.effective_energy(VV, AA)))
+    if ok:
+        same = (list(again[0].shape) == [2, N, N] and bool(np.all(np.abs(cnp(again[0]) - Rc) <= tolm))
+                and list(again[1].shape) == [2, N * N] and bool(np.all(np.abs(cnp(again[1]).reshape(N, N) - Rc) <= tolm))
+                and list(again[2].shape) == [2, N] and bool(np.all(np.abs(cnp(again[2]) - Rdc) <= 1e-9 * np.abs(Rdc)))
+                and list(again[3].shape) == [2, N, N] and bool(np.all(np.abs(cnp(again[3]) - Rc) <= tolm))
+                and list(again[4].shape) == [N] and bool(np.allclose(again[4].numpy(), prob_n, rtol=1e-9, atol=0))
+                and math.isclose(float(again[5]), Zf, rel_tol=1e-9))
+        ctx.require("a repeated call with the same arguments returns the same rho / probability / normalization", same, case,
+                    {"normalization": [float(again[5]), Zf], "probability": [again[4].numpy().tolist(), prob_n.tolist()]})
     ctx.traces += 1
+    return res
+
+
+# ------------------------------------------------------------------ further call forms / histories on verified values
+def matrix_forms(ctx, res, case, arng):
+    """Matrix form rho(v, vp) with v different from vp: two different row orders, a rectangular k x m selection
+    (k != m) and the off-diagonal block, against the verified entries of rho(space, space)."""
+    s, space, N, Rc, mRc, amp, tolm = res["s"], res["T"]["space"], res["N"], res["Rc"], res["mRc"], res["amp"], res["tolm"]
+    p1, p2 = arng.permutation(N), arng.permutation(N)
+    if np.array_equal(p1, p2):
+        p2 = np.roll(p1, 1)
+    k = int(arng.integers(1, N + 1))
+    mm = int(arng.integers(1, N + 1))
+    if mm == k:
+        mm = k - 1 if k > 1 else k + 1
+    h = N // 2
+    forms = [("rho(space[p1], space[p2])", p1, p2), ("rho(space[p1][:k], space[p2][:m]), k != m", p1[:k], p2[:mm]),
+             ("rho(space[:N/2], space[N/2:])", np.arange(h), np.arange(h, N))]
+    for name, a, b in forms:
+        va, vb = space[a], space[b]
+        ok, val = ctx.call("matrix form " + name, case, lambda: s.rho(va, vb))
+        if not ok:
+            continue
+        good = list(val.shape) == [2, len(a), len(b)]
+        ctx.require("matrix form rho(v, vp) with v != vp has shape (2, len(v), len(vp))", good, case,
+                    {"form": name, "rows": a.tolist(), "cols": b.tolist(), "shape": list(val.shape)})
+        if not good:
+            continue
+        z, sel = cnp(val), np.ix_(a, b)
+        ctx.agree("matrix form " + name + " / |rho_model|", [np.real(z / amp[sel]).tolist(), np.imag(z / amp[sel]).tolist()],
+                  [np.real(mRc[sel] / amp[sel]).tolist(), np.imag(mRc[sel] / amp[sel]).tolist()], case, rtol=0, atol=1e-7, scale=1.0)
+        ctx.require("matrix form rho(v, vp) with v != vp == the corresponding entries of rho(space, space)",
+                    bool(np.all(np.abs(z - Rc[sel]) <= tolm[sel])), case,
+                    {"form": name, "rows": a.tolist(), "cols": b.tolist(), "worst": float(np.max(np.abs(z - Rc[sel]) / res["sc"][sel]))})
+        ctx.count("matrix_form_v_ne_vp")
+
+
+def batch_mutated_in_place(ctx, res, case, arng):
+    """The same batch tensor object is evaluated, permuted IN PLACE (once through copy_, once through .data.copy_, which
+    does not advance the tensor's version counter) and evaluated again: the results must follow the new rows."""
+    s, T, N, Rc, prob, Zf, tolm = res["s"], res["T"], res["N"], res["Rc"], res["prob"], res["Z"], res["tolm"]
+    b = T["mutable"]
+    b.copy_(T["space"])
+    cur = np.arange(N)
+
+    def calls():
+        return (s.probability(b), s.rho(b, expand=False), s.rho(b, b), s.rho(b), s.normalization(b), s.rbm_am.effective_energy(b))
+    ok, _ = ctx.call("evaluation on a batch tensor", case, calls)
+    if not ok:
+        return
+    for how in ("copy_", "data.copy_"):
+        perm = arng.permutation(N)
+        if np.array_equal(perm, np.arange(N)):
+            perm = np.roll(perm, 1)
+        new_rows = T["space"][cur[perm]].clone()
+        if how == "copy_":
+            b.copy_(new_rows)
+        else:
+            b.data.copy_(new_rows)
+        cur = cur[perm]
+        ok, out = ctx.call("evaluation after permuting the batch tensor in place", case, calls)
+        if not ok:
+            return
+        p, rd, rm, rdef, z, e = out
+        det = {"in_place_write": how, "rows_now": cur.tolist()}
+        if list(p.shape) == [N]:
+            ctx.require("probability(batch) after the batch tensor was permuted in place == probability of its current rows",
+                        bool(np.allclose(p.numpy(), prob[cur], rtol=1e-9, atol=0)), case, dict(det, got=p.numpy().tolist(), want=prob[cur].tolist()))
+        if list(rd.shape) == [2, N]:
+            ctx.require("rho(batch, expand=False) after the batch tensor was permuted in place == diagonal entries of its current rows",
+                        bool(np.all(np.abs(cnp(rd) - np.diagonal(Rc)[cur]) <= RT * np.abs(np.diagonal(Rc)[cur]))), case, det)
+        sel = np.ix_(cur, cur)
+        for nm, val in (("rho(batch, batch)", rm), ("rho(batch)", rdef)):
+            if list(val.shape) == [2, N, N]:
+                ctx.require(nm + " after the batch tensor was permuted in place == entries of its current rows",
+                            bool(np.all(np.abs(cnp(val) - Rc[sel]) <= tolm[sel])), case, det)
+        ctx.require("normalization(batch) is unchanged by permuting the rows of the batch in place", math.isclose(float(z), Zf, rel_tol=1e-9), case,
+                    dict(det, got=float(z), want=Zf))
+        if "rbm_am" in res["E_small"] and list(e.shape) == [N]:
+            ctx.require("effective_energy(batch) after the batch tensor was permuted in place == energies of its current rows",
+                        bool(np.allclose(e.numpy(), res["E_small"]["rbm_am"][cur], rtol=1e-9, atol=1e-12)), case, det)
+    ctx.count("batch_permuted_in_place")
+
+
+BIG_SIZES = [65537, 70001, (1 << 17) + 3]
+
+
+def large_batches(ctx, res, case, arng):
+    """Batches far larger than 2^n (> 65536 rows): paired-vector rho, probability, the diagonal shortcut and the effective
+    energies on random index (pairs), gathered against the verified small results."""
+    import torch
+    s, T, N, Rc, prob, sc = res["s"], res["T"], res["N"], res["Rc"], res["prob"], res["sc"]
+    n = int(BIG_SIZES[int(arng.integers(0, len(BIG_SIZES)))])
+    i, j = arng.integers(0, N, size=n), arng.integers(0, N, size=n)
+    na_cfg = len(res["A"])
+    kk = arng.integers(0, na_cfg, size=n)
+    vi, vj = T["space"][i], T["space"][j]
+    ai = torch.tensor(res["A"][kk], dtype=torch.double)
+    ok, out = ctx.call("evaluation on a batch of %d rows" % n, case, lambda: (
+        s.rho(vi, vj, expand=False), s.probability(vi), s.rho(vi, expand=False), s.rho(vi, vi, expand=False),
+        s.rbm_am.effective_energy(vi), s.rbm_am.effective_energy(vi, ai), s.rbm_ph.effective_energy(vi, ai)))
+    if not ok:
+        return
+    rp, p, rd, rdd, e, ea, eap = out
+    det = {"rows": n}
+
+    def bad_rows(mask):
+        w = np.flatnonzero(~mask)
+        return dict(det, wrong_rows=int(len(w)), first_wrong_row=int(w[0]) if len(w) else None)
+    shp = (list(rp.shape) == [2, n] and list(p.shape) == [n] and list(rd.shape) == [2, n] and list(rdd.shape) == [2, n]
+           and list(e.shape) == [n] and list(ea.shape) == [n] and list(eap.shape) == [n])
+    ctx.require("large batch: result shapes", shp, case, dict(det, shapes=[list(x.shape) for x in out]))
+    if not shp:
+        return
+    okm = np.abs(cnp(rp) - Rc[i, j]) <= 1e-9 * sc[i, j]
+    ctx.require("large batch: rho(v, vp, expand=False) == entries of rho(space, space) row by row", bool(np.all(okm)), case, bad_rows(okm))
+    okm = np.isclose(p.numpy(), prob[i], rtol=1e-9, atol=0)
+    ctx.require("large batch: probability(v) == probability(space) row by row", bool(np.all(okm)), case, bad_rows(okm))
+    dg = np.diagonal(Rc)[i]
+    okm = np.abs(cnp(rd) - dg) <= RT * np.abs(dg)
+    ctx.require("large batch: rho(v, expand=False) == diagonal of rho(space, space) row by row", bool(np.all(okm)), case, bad_rows(okm))
+    okm = np.abs(cnp(rdd) - dg) <= 1e-9 * np.abs(dg)
+    ctx.require("large batch: rho(v, v, expand=False) == diagonal of rho(space, space) row by row", bool(np.all(okm)), case, bad_rows(okm))
+    if "rbm_am" in res["E_small"]:
+        okm = np.isclose(e.numpy(), res["E_small"]["rbm_am"][i], rtol=1e-9, atol=1e-12)
+        ctx.require("large batch: effective_energy(v) == effective_energy(space) row by row", bool(np.all(okm)), case, bad_rows(okm))
+    for nm, val in (("rbm_am", ea), ("rbm_ph", eap)):
+        if nm in res["E_joint"]:
+            okm = np.isclose(val.numpy(), res["E_joint"][nm][i, kk], rtol=1e-9, atol=1e-12)
+            ctx.require("large batch: effective_energy(v, a) == the small-batch values row by row", bool(np.all(okm)), case, bad_rows(okm))
+    ctx.count("large_batch_rows:%d" % n)
 
 
 def build(nv, nh, na, am, ph):
@@ -299,30 +476,92 @@ REGIMES_QUICK = ["default", "large_bias", "branch", "default", "large_bias", "br
 REGIMES_THOROUGH = ["default", "large_bias", "branch", "default"]
 
 
-def one_case(ctx, nv, nh, na, zero_bias=False, regime="default"):
-    ctx.count("regime:" + ("zero_bias" if zero_bias else regime))
+WAYS = ["data_assign", "data_copy_", "load_state_dict", "vector_to_parameters"]
+PNAMES = ["weights_W", "weights_U", "visible_bias", "hidden_bias", "aux_bias"]
+
+
+def write_params(rbm, pr, way):
+    """(Re)write all parameters of one PurificationRBM of a live object in one of the ways a user can."""
+    import torch
+    named = {k: torch.tensor(np.asarray(x, dtype=float), dtype=torch.double) for k, x in zip(PNAMES, pr)}
+    if way in ("init", "data_assign"):
+        for k, t in named.items():
+            getattr(rbm, k).data = t
+    elif way == "data_copy_":
+        for k, t in named.items():
+            getattr(rbm, k).data.copy_(t)
+    elif way == "load_state_dict":
+        sd = rbm.state_dict()
+        for k in sd:
+            if k in named:
+                sd[k] = named[k]
+        rbm.load_state_dict(sd)
+    elif way == "vector_to_parameters":
+        vec = torch.cat([named[k].reshape(-1) for k, _ in rbm.named_parameters()])
+        torch.nn.utils.vector_to_parameters(vec, rbm.parameters())
+    else:
+        raise ValueError(way)
+
+
+def run_history(ctx, nv, nh, na, steps, big_steps=(), zero_bias=False):
+    """steps: list of dicts {way, regime, am, ph[, aux_seed]}.  ONE DensityMatrix object and ONE set of batch tensors;
+    after every (re)write of both networks' parameters everything is evaluated again."""
+    from qucumber.nn_states import DensityMatrix
+    s = DensityMatrix(nv, nh, na, gpu=False)
+    T = make_tensors(nv, na)
+    hist = []
+    for k, st in enumerate(steps):
+        am = tuple(np.asarray(x, dtype=float) for x in st["am"])
+        ph = tuple(np.asarray(x, dtype=float) for x in st["ph"])
+        write_params(s.rbm_am, am, st["way"])
+        write_params(s.rbm_ph, ph, st["way"])
+        hist.append({"way": st["way"], "regime": st.get("regime"), "am": gen.plist(*am), "ph": gen.plist(*ph)})
+        case = {"regime": st.get("regime"), "nv": nv, "nh": nh, "na": na, "am": gen.plist(*am), "ph": gen.plist(*ph),
+                "step": k, "rewritten_by": st["way"], "history": [dict(h) for h in hist], "big": k in big_steps}
+        if "aux_seed" in st:
+            case["aux_seed"] = st["aux_seed"]
+        nontriv = (not zero_bias) and all(bool(np.all(x != 0)) for x in (am[2], am[3], am[4], ph[2], ph[3])) and bool(np.any(ph[1] != 0))
+        desc = {"nv": nv, "nh": nh, "na": na, "step": k, "way": st["way"], "U_am00": float(am[1][0, 0]), "d_am0": float(am[4][0]),
+                "U_ph00": float(ph[1][0, 0]), "b_ph0": float(ph[2][0])}
+        if nontriv:
+            ctx.count("all_biases_nonzero")
+        ctx.count("regime:" + ("zero_bias" if zero_bias else str(st.get("regime"))))
+        if k > 0:
+            ctx.count("rewrite:" + st["way"])
+        evaluate(ctx, s, am, ph, case, nontriv, desc, T=T, big=(k in big_steps))
+        hist[-1]["aux_seed"] = case.get("aux_seed")
+
+
+def one_case(ctx, nv, nh, na, zero_bias=False, regime="default", ways=(), big=False):
+    """A fresh object, parameters written once (step 0), then one re-write + full re-evaluation per entry of ways."""
     if zero_bias:                                       # fresh-initialisation regime of the test-suite
         am = (gen.rand_values(ctx, (nh, nv)), gen.rand_values(ctx, (na, nv)), np.zeros(nv), np.zeros(nh), np.zeros(na))
         ph = (gen.rand_values(ctx, (nh, nv)), gen.rand_values(ctx, (na, nv)), np.zeros(nv), np.zeros(nh), np.zeros(na))
-        s = build(nv, nh, na, am, ph)
     else:
         am, ph = draw_params(ctx, nv, nh, na, regime)
-        s = build(nv, nh, na, am, ph)
-    case = {"regime": regime, "nv": nv, "nh": nh, "na": na, "am": gen.plist(*am), "ph": gen.plist(*ph)}
-    nontriv = (not zero_bias) and all(bool(np.all(x != 0)) for x in (am[2], am[3], am[4], ph[2], ph[3])) and bool(np.any(ph[1] != 0))
-    desc = {"nv": nv, "nh": nh, "na": na, "U_am00": float(am[1][0, 0]), "d_am0": float(am[4][0]), "U_ph00": float(ph[1][0, 0]), "b_ph0": float(ph[2][0])}
-    if nontriv:
-        ctx.count("all_biases_nonzero")
-    evaluate(ctx, s, am, ph, case, nontriv, desc)
+    steps = [{"way": "init", "regime": regime, "am": am, "ph": ph}]
+    for w in ways:
+        reg = REGIMES_QUICK[int(ctx.rng.integers(0, len(REGIMES_QUICK)))]
+        am2, ph2 = draw_params(ctx, nv, nh, na, reg)
+        steps.append({"way": w, "regime": reg, "am": am2, "ph": ph2})
+    run_history(ctx, nv, nh, na, steps, big_steps=((0, len(steps) - 1) if big else ()), zero_bias=zero_bias)
 
 
 def run(ctx):
+    # fixed cases that always run first: same-object histories with all four ways of rewriting the parameters and
+    # batches of more than 65536 rows
+    for (nv, nh, na) in [(2, 2, 2), (1, 1, 1), (3, 2, 1)]:
+        ctx.torch_seed()
+        one_case(ctx, nv, nh, na, ways=WAYS, big=True)
     draws = 20 if ctx.thorough else 6
+    k = 0
     for (nv, nh, na) in shapes(ctx):
         for d in range(draws):
             ctx.torch_seed()
             regs = REGIMES_THOROUGH if ctx.thorough else REGIMES_QUICK
-            one_case(ctx, nv, nh, na, regime=regs[d % len(regs)])
+            ways = [WAYS[(k + t) % len(WAYS)] for t in range(2)] if d % 3 == 1 else ()
+            one_case(ctx, nv, nh, na, regime=regs[d % len(regs)], ways=ways, big=(d % 6 == 4))
+            k += 1
     one_case(ctx, 2, 2, 2, zero_bias=True)
     one_case(ctx, 3, 1, 2, zero_bias=True)
 
@@ -334,7 +573,7 @@ def search(ctx, broken, budget):
     n0 = len(ctx.failures)
     for rnd in range(6):
         for (nv, nh, na) in [(a, b, c) for a in range(1, 4) for b in range(1, 4) for c in range(1, 4)]:
-            one_case(ctx, nv, nh, na, regime=REGIMES_QUICK[rnd % len(REGIMES_QUICK)])
+            one_case(ctx, nv, nh, na, regime=REGIMES_QUICK[rnd % len(REGIMES_QUICK)], ways=[WAYS[(rnd + nv + nh + na) % len(WAYS)]], big=(rnd == 0))
             if len(ctx.failures) > n0:
                 return ctx.failures[n0]
             if time.time() - t0 > budget:
@@ -348,11 +587,13 @@ def replay(ctx, rec):
         print("replay record has no density-matrix case; running the generated cases")
         run(ctx)
         return
-    am = tuple(np.array(x, dtype=float) for x in case["am"])
-    ph = tuple(np.array(x, dtype=float) for x in case["ph"])
     nv, nh, na = int(case["nv"]), int(case["nh"]), int(case["na"])
-    print("replay of density matrix nv=%d nh=%d na=%d" % (nv, nh, na))
-    s = build(nv, nh, na, am, ph)
-    evaluate(ctx, s, am, ph, dict(case), True, {"replay": True, "nv": nv, "nh": nh, "na": na})
+    steps = case.get("history") or [{"way": "init", "regime": case.get("regime"), "am": case["am"], "ph": case["ph"]}]
+    steps = [dict(st) for st in steps]
+    if steps[-1].get("aux_seed") is None and "aux_seed" in case:
+        steps[-1]["aux_seed"] = case["aux_seed"]
+    steps = [{k: v for k, v in st.items() if not (k == "aux_seed" and v is None)} for st in steps]
+    print("replay of density matrix nv=%d nh=%d na=%d, %d parameter (re)writes: %s" % (nv, nh, na, len(steps), [st["way"] for st in steps]))
+    run_history(ctx, nv, nh, na, steps, big_steps=((len(steps) - 1,) if case.get("big") else ()))
     for f in ctx.failures[:5]:
         print("FAILS:", f["what"], f["detail"][:300])
